@@ -71,30 +71,48 @@ impl BufferedWriter for HtmlWriter {
 
 impl std::io::Write for HtmlWriter {
     fn write(&mut self, buf: &[u8]) -> std::io::Result<usize> {
+        // The text that is written here (diagnostic messages, quoted source code) can
+        // contain HTML special characters, which need to be escaped. This can be done
+        // on the level of bytes: the characters in question are ASCII characters, and
+        // those never appear as part of a multi-byte UTF-8 sequence.
+        let mut escaped = Vec::with_capacity(buf.len());
+        for byte in buf {
+            match byte {
+                b'<' => escaped.extend_from_slice(b"&lt;"),
+                b'>' => escaped.extend_from_slice(b"&gt;"),
+                b'&' => escaped.extend_from_slice(b"&amp;"),
+                _ => escaped.push(*byte),
+            }
+        }
+        let size = buf.len();
+        let buf = &escaped;
+
         if let Some(color) = &self.color {
             if color.fg() == Some(&Color::Red) {
                 self.buffer
                     .write_all("<span class=\"numbat-diagnostic-red\">".as_bytes())?;
-                let size = self.buffer.write(buf)?;
+                self.buffer.write_all(buf)?;
                 self.buffer.write_all("</span>".as_bytes())?;
                 Ok(size)
             } else if color.fg() == Some(&Color::Blue) {
                 self.buffer
                     .write_all("<span class=\"numbat-diagnostic-blue\">".as_bytes())?;
-                let size = self.buffer.write(buf)?;
+                self.buffer.write_all(buf)?;
                 self.buffer.write_all("</span>".as_bytes())?;
                 Ok(size)
             } else if color.bold() {
                 self.buffer
                     .write_all("<span class=\"numbat-diagnostic-bold\">".as_bytes())?;
-                let size = self.buffer.write(buf)?;
+                self.buffer.write_all(buf)?;
                 self.buffer.write_all("</span>".as_bytes())?;
                 Ok(size)
             } else {
-                self.buffer.write(buf)
+                self.buffer.write_all(buf)?;
+                Ok(size)
             }
         } else {
-            self.buffer.write(buf)
+            self.buffer.write_all(buf)?;
+            Ok(size)
         }
     }
 
